@@ -301,6 +301,11 @@ def main(argv):
                 if got != recs_str(want):
                     c.violation("records-before-error-wrong: %s: expected %d intact records before the error, got %s" % (x["bucket"], len(want), res[:80]), rep)
 
+    # --- thorough: the same cases through the ASan+UBSan build of the harness (reads outside the
+    #     buffers, e.g. the trailer test of a record shorter than 4 bytes, show up here)
+    if c.tier == "thorough":
+        asan_lines(c, "hx_warc", [l for l in lines if len(l) < 400000], what="(WARCReader)")
+
     # --- warc_parallel: every record exactly once and intact, any -j, -z one member per record
     work = os.path.join(codeclog.scratch_dir(), "c17-%d" % os.getpid())
     shutil.rmtree(work, ignore_errors=True)
